@@ -39,6 +39,17 @@ fn add_runs(rng: &mut Rng, case: &mut Case, tier: Tier) {
     }
 }
 
+/// few runs for the inputs with more than 16384 edges: one thread, then 2, 3, 4, 8, 16 threads, twice each
+fn add_runs_big(case: &mut Case, reps: usize) {
+    case.op("R n=1 pin=- jit=0");
+    for rep in 0..reps {
+        for n in [2usize, 3, 4, 8, 16] {
+            case.op(format!("R n={n} pin=- jit={}", rep % 2));
+        }
+    }
+    case.op("R n=4 pin=0-1 jit=0");
+}
+
 fn generate(rng: &mut Rng, tier: Tier, cases: &mut Vec<Case>) {
     let scale = match tier {
         Tier::Quick => 1,
@@ -78,6 +89,39 @@ fn generate(rng: &mut Rng, tier: Tier, cases: &mut Vec<Case>) {
         let m = 1 + rng.below(2) as usize;
         let mut c = make_case(rng, "thin-deep", r, m, 0.02, &g, 255);
         add_runs(rng, &mut c, tier);
+        cases.push(c);
+    }
+    // one-way streets: NOT symmetric. Districts that can be entered but not left (the contracted target end of an
+    // axis may have no outgoing edge at all), random one-way streets, pure sinks and pure sources. The property is
+    // not restricted to symmetric inputs; the level clause is not claimed here (nodes without an edge in their
+    // cell keep a short id), everything else is.
+    for i in 0..(16 * scale) {
+        let (w, h) = (5 + rng.below(10) as usize, 5 + rng.below(10) as usize);
+        let g = mk(rng, w, h, 950, 930);
+        let n = g.coords.len();
+        let districts = rng.below(4) as usize;
+        let oneway = *rng.pick(&[0u64, 50, 200, 500]);
+        let sinks = rng.below((n / 6 + 2) as u64) as usize;
+        let sources = rng.below((n / 10 + 2) as u64) as usize;
+        let dir = gen_oneway(rng, &g, districts, oneway, sinks, sources);
+        let r = 2 + rng.below(7) as u32;
+        let m = *rng.pick(&[1usize, 2, 3, 5]);
+        let b = *rng.pick(&[0.25, 0.1, 0.02, 0.3, 0.49]);
+        let mut c = make_case_directed(rng, if i % 2 == 0 { "asym-oneway" } else { "asym-oneway-b" }, r, m, b, &g.coords, &dir, i % 3 != 0);
+        add_runs(rng, &mut c, tier);
+        cases.push(c);
+    }
+    // more than 16384 edges (the cut file is written in blocks of 2^14 edges): edges shuffled, so that the cut
+    // edges are spread over the whole edge list; all three files byte for byte across the thread counts
+    {
+        let (w, h) = match tier {
+            Tier::Quick => (74, 74),
+            Tier::Thorough => (104, 104),
+        };
+        let g = mk(rng, w, h, 990, 985);
+        let r = 4 + rng.below(2) as u32;
+        let mut c = make_case(rng, "grid-over-16384-edges", r, 40, 0.25, &g, 1);
+        add_runs_big(&mut c, 2);
         cases.push(c);
     }
     // denser graphs: bigger cuts, the bound aborts more runs
